@@ -206,6 +206,27 @@ def check(report: Report, repo: Repo) -> None:
                 exp = base * oracle_factor(rname, p.attrs["mup_type"], p.attrs["shape"], p.attrs["mup_scaling_depth"])
                 got = g.get("lr") if isinstance(g, dict) else None
                 report.add("R3-application", f"{cons}::lr", TM.expr_equal(got, exp) if got is not None else False, f"{sname}/{rname}: stored lr == (group or global lr) x factor for {fmt(p)}", fmt(got), fmt(exp))
+    # parameters that agree in tag and shape but not in depth, in one call (a per-call memo keyed too coarsely)
+    D2 = sp.Symbol("D2", positive=True, integer=True)
+    qa, qb, qc = mkparam("weight", 2, None, "qa"), mkparam("weight", 2, Dp, "qb"), mkparam("weight", 2, D2, "qc")
+    for q_ in (qb, qc):
+        q_.attrs["shape"] = qa.attrs["shape"]
+    for rname in ("adam", "sgd-output"):
+        f = rules.get(rname)
+        if f is None:
+            continue
+        res, raised = run([qa, qb, qc], lr_scale_func=f, lr=lr, weight_decay=wd)
+        if not isinstance(res, list) or len(res) != 3:
+            report.add("R3-application", f"{cons}::lr", None if isinstance(res, tuple) else False, f"same shape, three depths/{rname}: expected 3 groups, got {fmt(res)}")
+            continue
+        for g, p in zip(res, (qa, qb, qc)):
+            exp = lr * oracle_factor(rname, "weight", p.attrs["shape"], p.attrs["mup_scaling_depth"])
+            got = g.get("lr") if isinstance(g, dict) else None
+            report.add("R3-application", f"{cons}::lr", TM.expr_equal(got, exp) if got is not None else False, f"same tag and shape, different depths/{rname}: each parameter gets the factor of its own depth ({fmt(p.attrs['mup_scaling_depth'])})", fmt(got), fmt(exp))
+    # no learning rate anywhere is an error for every kind of parameter (also an allowed untagged one)
+    res, raised = run([pu], lr_scale_func=adam, allow_non_unit_scaling_params=True, independent_weight_decay=False)
+    ok = res is BOTTOM and [e["exc"] for e in raised] == ["ValueError"]
+    report.add("R2-errors", f"{cons}::lr-missing[untagged-allowed]", ok, "lr=None without a group lr must raise ValueError also when the only parameter is an allowed untagged one", fmt(res), "raise ValueError")
     # tensor lr: same multiplication applied to a clone
     tlr = P("lr_tensor", ())
     res, raised = run([p1, p3], lr_scale_func=adam, lr=tlr, weight_decay=wd)
